@@ -624,3 +624,152 @@ Proof.
 Qed.
 
 End ProgramPI.
+
+End Cursor.
+
+(* ================================================================ *)
+(** * The pre-pass has seen every `func` keyword                     *)
+
+(* the token type after advance() from a cursor standing at the head of l, whitespace-insensitive *)
+Definition nxt (l : list token) : toktype := cur_t (advance (state_at tEOF l [])).
+
+Lemma cur_t_advance_ext c c' : rest c = rest c' -> is_wss c = false -> is_wss c' = false ->
+  cur_t (advance c) = cur_t (advance c').
+Proof.
+  intros R W W'. unfold advance.
+  assert (W1 : is_wss (advance_wss c) = false) by exact W. assert (W1' : is_wss (advance_wss c') = false) by exact W'.
+  rewrite W1, W1'.
+  assert (R2 : rest (advance_if_ws (advance_wss c)) = rest (advance_if_ws (advance_wss c'))).
+  { unfold advance_if_ws, cur, advance_wss. simpl. rewrite R. destruct (is_ws (look0 (tl (rest c')))); simpl; rewrite ?R; reflexivity. }
+  destruct (is_ws (peek (advance_if_ws (advance_wss c)))), (is_ws (peek (advance_if_ws (advance_wss c'))));
+    unfold cur_t, cur; simpl; rewrite R2; reflexivity.
+Qed.
+
+Fixpoint named (toks : list token) : Prop :=
+  match toks with
+  | [] => True
+  | t :: r => (ttype t = T_FUNC -> nxt (t :: r) = T_IDENT) /\ named r
+  end.
+Lemma named_sfx toks : named toks -> forall t r, sfx (t :: r) toks -> ttype t = T_FUNC -> nxt (t :: r) = T_IDENT.
+Proof.
+  induction toks as [|x l IH]; intros N t r [pre E] TF.
+  - destruct pre; discriminate E.
+  - destruct N as [N1 N2]. destruct pre as [|y pre]; simpl in E.
+    + injection E as -> ->. exact (N1 TF).
+    + injection E as -> ->. apply (IH N2 t r); [exists pre; reflexivity|exact TF].
+Qed.
+
+Section PrePass.
+Variable B : benv.
+
+Lemma sig_params_loop_sn : forall fuel acc s r s', sig_params_loop B fuel acc s = Ok r s' -> SN s s'.
+Proof.
+  induction fuel as [|f IH]; intros acc s r s' H; [discriminate|]. cbn [sig_params_loop] in H.
+  destruct (_ || _); [apply Ok_inj in H as [? ?]; subst; apply SN_refl|].
+  destruct (parse_typed_decl B (snd (passert T_IDENT s))) as [[[n p] t] s1| |] eqn:P; try discriminate H.
+  apply typed_decl_sn in P. apply IH in H. eapply SN_trans; [apply SN_passert|]. eapply SN_trans; eassumption.
+Qed.
+
+Lemma func_def_signature_named s r s' : parse_func_def_signature B s = Ok r s' -> serrs s' = [] ->
+  serrs s = [] /\ ct (adv s) = T_IDENT.
+Proof.
+  unfold parse_func_def_signature. intros H Q. cbv zeta in H.
+  destruct (passert T_IDENT (adv s)) as [ok s2] eqn:A.
+  assert (AK : serrs s2 = [] -> serrs s = [] /\ ct (adv s) = T_IDENT).
+  { intro Q2. destruct (passert_ne _ _ _ _ A Q2) as [-> ->]. split; [destruct (SN_adv s Q2) as [Q0 _]; exact Q0|].
+    unfold passert, assert_token in A. change (cur_t (cs (adv s))) with (ct (adv s)) in A.
+    destruct (toktype_beq (ct (adv s)) T_IDENT) eqn:TB; [apply toktype_beq_eq in TB; exact TB|discriminate A]. }
+  destruct ok; cbn [negb] in H.
+  2:{ apply Ok_inj in H as [? ?]; subst. apply AK. destruct (SN_apnl s2 Q) as [Q2 _]. exact Q2. }
+  match type of H with (pdo (ret, s4) <- ?m; _) = _ => destruct m as [ret s4| |] eqn:PR end; try discriminate H.
+  destruct (sig_params_loop B (S (pos s4)) [] s4) as [params s5| |] eqn:PL; try discriminate H.
+  apply Ok_inj in H as [? ?]; subst.
+  destruct (SN_apnl _ Q) as [Q6a _]. destruct (SN_assert_eol _ Q6a) as [Q6 _].
+  assert (Q5 : serrs s5 = []).
+  { destruct (ct s5); try exact Q6. destruct (Nat.eqb _ _); [rewrite serrs_adv in Q6; exact Q6|rewrite serrs_serr in Q6; discriminate Q6]. }
+  destruct (sig_params_loop_sn _ _ _ _ _ PL Q5) as [Q4 _].
+  apply AK.
+  destruct (ct (adv s2)).
+  all: try (apply Ok_inj in PR as [? ?]; subst; rewrite serrs_adv in Q4; exact Q4).
+  destruct (p_type B (adv (adv s2))) as [t s5'| |] eqn:PT; try discriminate PR.
+  apply Ok_inj in PR as [? ?]; subst.
+  assert (Q5' : serrs s5' = []) by (destruct t; [exact Q4|rewrite serrs_serr_at in Q4; discriminate Q4]).
+  destruct (p_type_sn B _ _ _ PT Q5') as [Q' _]. rewrite !serrs_adv in Q'. exact Q'.
+Qed.
+
+Lemma signature_step_named pv toks s u s' : signature_step B pv toks s = Ok u s' -> serrs s' = [] ->
+  serrs s = [] /\ nxt toks = T_IDENT.
+Proof.
+  unfold signature_step. intros H Q. cbv zeta in H.
+  set (s0 := with_cs s (state_at pv toks (errs (cs s)))) in *.
+  destruct (parse_func_def_signature B s0) as [r s1| |] eqn:P; try discriminate H.
+  assert (Q1 : serrs s1 = []).
+  { destruct r as [[name fi]|]; apply Ok_inj in H as [? ?]; subst; [|exact Q].
+    change (serrs (match lookup_fn name (map (fun nb : str * bool => (fst nb, {| fi_nil := snd nb; fi_ret := false; fi_arity := None; fi_params := [] |})) (b_funcs B)) with
+                   | Some _ => serr_at K_override_builtin_func (pos s0) (if mem_str name (b_globals B) then serr_at K_override_builtin_var (pos s0) s1 else s1)
+                   | None => if is_func name (if mem_str name (b_globals B) then serr_at K_override_builtin_var (pos s0) s1 else s1)
+                             then serr_at K_redecl_func (pos s0) (if mem_str name (b_globals B) then serr_at K_override_builtin_var (pos s0) s1 else s1)
+                             else (if mem_str name (b_globals B) then serr_at K_override_builtin_var (pos s0) s1 else s1)
+                   end) = []) in Q.
+    destruct (lookup_fn name _); [discriminate Q|].
+    destruct (mem_str name (b_globals B)); [destruct (is_func _ _); discriminate Q|].
+    destruct (is_func name s1); [discriminate Q|exact Q]. }
+  destruct (func_def_signature_named _ _ _ P Q1) as [Q0 TI]. split; [exact Q0|].
+  unfold nxt. rewrite <- TI. symmetry. apply cur_t_advance_ext; reflexivity.
+Qed.
+
+Lemma signatures_named : forall toks pv s u s', signatures B pv toks s = Ok u s' -> serrs s' = [] ->
+  serrs s = [] /\ named toks.
+Proof.
+  induction toks as [|t r IH]; intros pv s u s' H Q; cbn [signatures] in H.
+  - apply Ok_inj in H as [? ?]; subst. split; [exact Q|exact I].
+  - destruct (ttype t) eqn:TT; try (destruct (IH _ _ _ _ H Q) as [Q0 N]; split; [exact Q0|]; cbn [named]; rewrite TT; split; [intro X; discriminate X|exact N]).
+    destruct (signature_step B pv (t :: r) s) as [u1 s1| |] eqn:P; try discriminate H.
+    destruct (IH _ _ _ _ H Q) as [Q1 N]. destruct (signature_step_named _ _ _ _ _ P Q1) as [Q0 TI].
+    split; [exact Q0|]. cbn [named]. split; [intros _; exact TI|exact N].
+Qed.
+
+(* the statement loop from a cursor inside the token list, whitespace-insensitive: every `func` it meets is named *)
+Lemma loop_named_true toks : named toks -> forall fuel terms s, SI toks [false] s -> loop_named B fuel terms s = true.
+Proof.
+  intros N. induction fuel as [|f IH]; intros terms s I; [reflexivity|]. cbn [loop_named].
+  assert (DS : match parse_statement B f s with
+               | Ok None s1 => loop_named B f terms s1
+               | Ok (Some st) s1 => if terms then true else loop_named B f (always_terms st) s1
+               | _ => true
+               end = true).
+  { destruct (parse_statement B f s) as [r s1| |] eqn:P; try reflexivity.
+    pose proof (stmt_spi toks B _ _ _ _ P _ I) as I1.
+    destruct r as [st|]; [destruct terms; [reflexivity|]|]; apply IH; exact I1. }
+  destruct (ct s) eqn:CT; try exact DS.
+  - reflexivity.
+  - apply andb_true_iff. split.
+    + assert (TI : ct (adv s) = T_IDENT).
+      { destruct I as [S W]. unfold ct, cur_t, cur in CT.
+        destruct (rest (cs s)) as [|t r] eqn:R; [discriminate CT|]. simpl in CT.
+        rewrite <- (named_sfx toks N t r S CT). unfold nxt, ct. apply cur_t_advance_ext; [exact R| |reflexivity].
+        unfold is_wss. rewrite W. reflexivity. }
+      rewrite TI. reflexivity.
+    + destruct (parse_func B f s) as [r s1| |] eqn:P; try reflexivity. apply IH. exact (func_spi toks B _ _ _ _ P _ I).
+  - destruct (parse_event_handler B f s) as [r s1| |] eqn:P; try reflexivity. apply IH. exact (event_handler_spi toks B _ _ _ _ P _ I).
+Qed.
+
+End PrePass.
+
+(* an accepted parse: the premise of the scoping theorem holds *)
+Theorem accept_funcs_named B raw eof p : parse B raw eof = Accept p -> funcs_named B raw = true.
+Proof.
+  unfold parse, funcs_named, loop_start_state, fn_table, legal_toks, newparser_state.
+  destruct (signatures B tEOF _ _) as [u s1| |] eqn:SG; try discriminate.
+  destruct (_ ++ _) as [|e0 es0] eqn:EE; [|discriminate]. intros _.
+  apply app_eq_nil in EE as [_ EE]. apply map_rev_nil in EE.
+  destruct (signatures_named B _ _ _ _ _ SG EE) as [_ N].
+  apply (loop_named_true B _ N). split; [apply sfx_refl|reflexivity].
+Qed.
+
+(* ================================================================ *)
+(** * The scoping theorem without premise                            *)
+From EvyV Require Import ParserScope.
+
+Theorem accept_scoped B raw eof p : parse B raw eof = Accept p -> scope_prog (tabs_of B (fn_table B raw)) p = true.
+Proof. intro H. exact (accept_scoped_partial B raw eof p H (accept_funcs_named B raw eof p H)). Qed.
